@@ -121,6 +121,19 @@ def inject_all(cfg):
         if _range_size(r) > 1:
             _set_range(c["endpoints"][i], j, new)
             yield "beyond-addr-width", f"{eps[i]['name']}[{j}]", c
+        # only a later element of an array leaves the address space
+        if "array" in eps[i] and "base" in r:
+            arr = eps[i]["array"]
+            cnt = arr if isinstance(arr, int) else (arr[0] * (arr[1] if len(arr) > 1 else 1))
+            if cnt > 1:
+                c = copy.deepcopy(cfg)
+                new = dict(r)
+                new["base"] = top - r["size"] * (cnt - 1) - r["size"] // 2 if r["size"] > 1 else top - (cnt - 1)
+                others = [x for k2, e2 in enumerate(eps) if e2.get("sbr_port_protocol") for x in _ranges(e2) if k2 != i]
+                lo = new["base"]
+                if lo >= 0 and all(_range_start(x) + _range_size(x) * 64 <= lo for x in others):
+                    _set_range(c["endpoints"][i], j, new)
+                    yield "beyond-addr-width", f"{eps[i]['name']}[{j}] last array element", c
         # array range without base
         if "array" in eps[i] and "base" in r:
             c = copy.deepcopy(cfg)
@@ -142,7 +155,7 @@ def inject_all(cfg):
         c = copy.deepcopy(cfg)
         c["routers"][1]["name"] = cfg["routers"][0]["name"]
         yield "duplicate-router-name", cfg["routers"][1]["name"], c
-    else:
+    elif cfg["routers"]:
         c = copy.deepcopy(cfg)
         c["routers"].append(copy.deepcopy(cfg["routers"][0]))
         yield "duplicate-router-name", cfg["routers"][0]["name"], c
@@ -157,6 +170,8 @@ def inject_all(cfg):
         elif where == "endpoint":
             c["endpoints"][-1]["foo_bar"] = 1
         elif where == "router":
+            if not c["routers"]:
+                continue
             c["routers"][-1]["foo_bar"] = 1
         elif where == "connection":
             c["connections"][-1]["foo_bar"] = 1
